@@ -60,6 +60,7 @@ def trav : Handler := fun j => do
       match k with
       | "desc" => let t := descendantsV es v; pure (t.nodes, t.cost)
       | "anc" => let t := ancestorsV es v; pure (t.nodes, t.cost)
+      | "ancset" => let t := ancestorSetV es v; pure (t.nodes, t.cost)
       | "deps" => pure (preds es v, 0)
       | "rdeps" => pure (succs es v, 0)
       | _ => throw "bad query kind")
